@@ -898,7 +898,7 @@ impl PreExp {
             Self::BinaryOperation(_, _, _) | Self::UnaryOperation(_, _)
         )
     }
-    fn to_string_with_precedence(&self, previous_precedence: u8) -> String {
+    fn to_string_as_operand(&self, parent: BinOp, is_rhs: bool) -> String {
         match self {
             Self::BinaryOperation(op, lhs, rhs) => {
                 //TODO add implied multiplication like 2x 2(x + y) etc...
@@ -908,9 +908,9 @@ impl PreExp {
                        (number | parenthesis) ~ variable
                    }
                 */
-                let lhs_str = lhs.to_string_with_precedence(op.precedence());
-                let rhs_str = rhs.to_string_with_precedence(op.precedence());
-                if op.precedence() < previous_precedence {
+                let lhs_str = lhs.to_string_as_operand(**op, false);
+                let rhs_str = rhs.to_string_as_operand(**op, true);
+                if op.operand_needs_parenthesis(parent, is_rhs) {
                     format!("({} {} {})", lhs_str, **op, rhs_str)
                 } else {
                     format!("{} {} {}", lhs_str, **op, rhs_str)
@@ -979,8 +979,8 @@ impl fmt::Display for PreExp {
             Self::BlockFunction(f) => f.to_string(),
             Self::BlockScopedFunction(f) => f.to_string(),
             Self::BinaryOperation(op, lhs, rhs) => {
-                let rhs = rhs.to_string_with_precedence(op.precedence());
-                let lhs = lhs.to_string_with_precedence(op.precedence());
+                let rhs = rhs.to_string_as_operand(**op, true);
+                let lhs = lhs.to_string_as_operand(**op, false);
                 format!("{} {} {}", lhs, **op, rhs)
             }
             Self::CompoundVariable(c) => c.to_string(),
